@@ -82,6 +82,12 @@ def run(ctx):
             for nlp in (False, True):
                 extra.append(dict(entry=entry, limit=50, nlp=nlp, fuzzy=True, thr=0, ponly=False, pboost=True, allplat=True, plats=[],
                                   nocross=False, boost=False, query="raw", raw=raw, corpus="uniq"))
+    # typo searches on a database whose commands were replaced by as many others after an earlier typo search
+    for raw in ("frobnicte", "zzzz", "wdgt nmbr", "frbnct"):
+        for entry in ("universal", "cached"):
+            for nlp in (False, True):
+                extra.append(dict(entry=entry, limit=rnd.choice([5, 50]), nlp=nlp, fuzzy=True, thr=0, ponly=False, pboost=False, allplat=True, plats=[],
+                                  nocross=False, boost=False, query="raw", raw=raw, corpus="swapped"))
     tr, info, ok, rej = engine.run_cases(ctx, scen + extra, ["C07"])
     for x in rej:
         ev = json.loads(x["trace"][x["at"] - 1])
